@@ -20,6 +20,20 @@ func (x nxInst) Step(e uint32) string { return x.c.Step(e) }
 func (x nxInst) Canon() []byte        { return x.c.Canon() }
 func (x nxInst) Check() string        { return x.c.Check() }
 
+// Dispose releases what a discarded cluster holds: the real log stores (Pebble
+// and Tan keep goroutines and caches per open store).
+func (x nxInst) Dispose() {
+	if x.c.cfg.Store == "" {
+		return
+	}
+	for _, h := range x.c.hosts {
+		if h.db != nil {
+			_ = verifkit.Catch(func() { _ = h.db.Close() })
+			h.db = nil
+		}
+	}
+}
+
 func nxSilence() {
 	for _, n := range []string{"raft", "rsm", "logdb", "raftpb", "config", "dragonboat", "transport", "utils", "settings", "server", "registry"} {
 		logger.GetLogger(n).SetLevel(logger.CRITICAL)
